@@ -199,6 +199,15 @@ pub trait Prop: Sync {
     fn hang_is_violation(&self) -> bool {
         false
     }
+    /// how long one case may run before the watchdog stops the worker (a C18 case is a whole
+    /// enumeration of fault points, each a run of the binary: minutes in the thorough tier on a busy machine)
+    fn watchdog_secs(&self, tier: Tier) -> u64 {
+        if tier == Tier::Quick {
+            60
+        } else {
+            120
+        }
+    }
     /// default wall-clock budget of the coverage-guided tier in the thorough tier (seconds)
     fn fuzz_default_secs(&self) -> u64 {
         240
@@ -1042,7 +1051,7 @@ fn run_workers(prop: &dyn Prop, a: &RunArgs, run_dir: &Path, nworkers: usize, su
         W { child, shard, out, inflight, errf, last_progress: Instant::now(), last_size: 0, last_inflight: Vec::new() }
     };
     let mut ws: Vec<W> = (0..nworkers).map(|s| spawn(s, 0)).collect();
-    let case_timeout = Duration::from_secs(if a.tier == Tier::Quick { 60 } else { 120 });
+    let case_timeout = Duration::from_secs(prop.watchdog_secs(a.tier));
     let mut deaths = 0usize;
     let (mut hangs_tried, mut hangs_confirmed) = (0usize, 0usize);
     while !ws.is_empty() {
